@@ -143,6 +143,7 @@ var primTable = map[string]string{
 	"tlb.Anycast": "anycast", "tlb.MsgAddress": "msgAddress", "tlb.AccountStatus": "accountStatus",
 	"tlb.AccStatusChange": "accStatusChange", "tlb.ComputeSkipReason": "computeSkipReason",
 	"tlb.VmCellSlice": "vmCellSlice", "wallet.PayloadV1toV4": "payloadV1toV4", "wallet.W5Actions": "w5Actions",
+	"tlb.AddressWithWorkchain": "addrWc",
 }
 
 // custom codecs that do exactly what the reflection codec would do on the exported fields
@@ -151,6 +152,17 @@ var structLike = map[string]bool{"tlb.Message": true, "tlb.Transaction": true}
 // MarshalTLB returns "not implemented"
 var encErrTable = map[string]bool{"tlb.VmStkTuple": true, "tlb.VmCont": true, "tlb.ChunkedData": true,
 	"tlb.BinTree": true, "tlb.HashmapAug": true}
+
+// dictKeyOK: the key families with a fixed size that the model knows
+func dictKeyOK(d *Desc) bool {
+	switch d.Kind {
+	case KUint, KInt, KBytes:
+		return true
+	case KPrim:
+		return d.Name == "bigUint" || d.Name == "bigInt" || d.Name == "addrWc"
+	}
+	return false
+}
 
 func (u *Universe) Describe(t reflect.Type) *Desc {
 	d := u.describe(t)
@@ -190,7 +202,25 @@ func (u *Universe) describe(t reflect.Type) *Desc {
 			f, _ := t.FieldByName("Value")
 			return &Desc{Kind: KRef, Elem: u.Describe(f.Type)}
 		case "tlb.HashmapE":
-			return &Desc{Kind: KDictE, Name: name}
+			m, _ := t.FieldByName("m")
+			ks, _ := m.Type.FieldByName("keys")
+			vs, _ := m.Type.FieldByName("values")
+			kd, vd := u.Describe(ks.Type.Elem()), u.Describe(vs.Type.Elem())
+			if !dictKeyOK(kd) {
+				return &Desc{Kind: KOpaque, Name: name}
+			}
+			// a value whose encoding depends on the room left in the leaf (SnakeData family written inline) is outside
+			// C05's value-codec abstraction
+			posDep := false
+			u.Walk(vd, map[string]bool{}, func(x *Desc) {
+				if x.Kind == KPrim && (x.Name == "snake" || x.Name == "bytesSnake" || x.Name == "text") {
+					posDep = true
+				}
+			})
+			if posDep {
+				return &Desc{Kind: KOpaque, Name: name}
+			}
+			return &Desc{Kind: KDictE, Name: name, Elem: kd, Elem2: vd}
 		case "tlb.VmStack":
 			return &Desc{Kind: KVmStack, Elem: u.Describe(t.Elem())}
 		}
@@ -386,8 +416,6 @@ func (u *Universe) Coverage(d *Desc) (class string, detail []string) {
 			unsup = append(unsup, x.Name)
 		case KEncErr:
 			part = append(part, "enc-not-implemented:"+x.Name)
-		case KDictE:
-			part = append(part, "dict-empty-only")
 		}
 	})
 	uniq := func(xs []string) []string {
@@ -486,7 +514,7 @@ func (d *Desc) TextIdx(idx map[string]int) string {
 	case KVmStack:
 		return "(:vs|" + d.Elem.TextIdx(idx) + ")"
 	case KDictE:
-		return "(:de|:" + symSafe(d.Name) + ")"
+		return "(:de|" + d.Elem.TextIdx(idx) + "|" + d.Elem2.TextIdx(idx) + ")"
 	case KEncErr:
 		return "(:ee|:" + symSafe(d.Name) + ")"
 	default:
@@ -571,7 +599,7 @@ func (d *Desc) Lean(idx map[string]int) string {
 	case KVmStack:
 		return "(.vmStack " + d.Elem.Lean(idx) + ")"
 	case KDictE:
-		return fmt.Sprintf("(.dictE %q)", symSafe(d.Name))
+		return "(.dictE " + d.Elem.Lean(idx) + " " + d.Elem2.Lean(idx) + ")"
 	case KEncErr:
 		return fmt.Sprintf("(.encErr %q)", symSafe(d.Name))
 	default:
